@@ -374,6 +374,90 @@ def shadow_family():
                     yield {"title": "M", "type": "object", "properties": {"h": {"$ref": "#/definitions/Holder"}}, "definitions": defs}
 
 
+def self_named_family():
+    """a member named exactly like the class its own annotation mentions (directly, inside an array / map, through a root
+    model that --collapse-root-models writes inline): the annotation must still reach the class, not the member's default"""
+    toy = {"type": "object", "properties": {"id": {"type": "integer"}}, "required": ["id"]}
+    forms = {
+        "direct": ({"$ref": "#/definitions/Toy"}, {"id": 1}),
+        "array": ({"type": "array", "items": {"$ref": "#/definitions/Toy"}}, [{"id": 1}]),
+        "map": ({"type": "object", "additionalProperties": {"$ref": "#/definitions/Toy"}}, {"k": {"id": 1}}),
+        "map-of-arrays": ({"type": "object", "additionalProperties": {"type": "array", "items": {"$ref": "#/definitions/Toy"}}}, {"k": [{"id": 1}]}),
+        "root-array": ({"$ref": "#/definitions/Toys"}, [{"id": 1}]),
+        "root-nullable": ({"$ref": "#/definitions/MaybeToy"}, {"id": 1}),
+        "root-map": ({"$ref": "#/definitions/ToyMap"}, {"k": {"id": 1}}),
+        "union": ({"anyOf": [{"$ref": "#/definitions/Toy"}, {"type": "string"}]}, {"id": 1}),
+    }
+    for fname, (member, value) in forms.items():
+        for required in (False, True):
+            defs = {"Toy": toy, "Toys": {"type": "array", "items": {"$ref": "#/definitions/Toy"}},
+                    "MaybeToy": {"oneOf": [{"$ref": "#/definitions/Toy"}, {"type": "null"}]},
+                    "ToyMap": {"type": "object", "additionalProperties": {"$ref": "#/definitions/Toy"}},
+                    "Holder": {"type": "object", "properties": {"n": {"type": "integer"}, "Toy": member}, "required": ["Toy"] if required else []}}
+            sch = {"title": "Top", "type": "object", "properties": {"h": {"$ref": "#/definitions/Holder"}}, "definitions": defs}
+            yield fname, sch, {"Toy": value}
+
+
+def check_self_named(sch, kind, opts, inst):
+    why = check_schema(sch, kind, opts)
+    if why:
+        return why
+    if not kind.startswith("pydantic"):
+        return None
+    g = e2e.generate(json.dumps(sch), kind=kind, **{k: True for k in opts})
+    if not g.ok:
+        return None
+    mod, err = e2e.load_module(g.text, kind)
+    try:
+        if err:
+            return None
+        H = getattr(mod, "Holder", None)
+        if H is None:
+            return None
+        try:
+            H.model_validate(inst) if kind.startswith("pydantic_v2") else H.parse_obj(inst)
+        except Exception as e:  # noqa: BLE001
+            line = next((l.strip() for l in g.text.splitlines() if l.strip().startswith(("Toy", "Toy_"))), "")
+            return f"the member written `{line}` does not accept a valid value: the name in its annotation is not bound to the class ({str(e)[:100]})"
+        return None
+    finally:
+        e2e.unload(mod)
+
+
+SDLS = [
+    "type Book { title: String }\nunion Printed = Book\ntype Query { p: Printed }\n",
+    "union Printed = Book\ntype Book { title: String }\ntype Query { p: Printed }\n",
+    "type Book { title: String }\ntype Film { name: String }\nunion Media = Book | Film\ntype Query { m: Media }\n",
+    "union Media = Film | Book\ntype Film { name: String }\ntype Book { title: String }\ntype Query { m: [Media!] }\n",
+    "interface Node { id: ID! }\ntype Zed implements Node { id: ID! z: Int }\ntype Abe implements Node { id: ID! a: Zed }\ntype Query { n: Node }\n",
+    "scalar Date\nenum Kind { A B }\ninput Filter { k: Kind = A, since: Date }\ntype Query { f(x: Filter): Kind }\n",
+    "type A { b: B }\ntype B { a: A, l: [A!]! }\ntype Query { a: A }\n",
+]
+
+
+def check_sdl(sdl, kind):
+    g = e2e.generate(sdl, kind=kind, file_type="graphql")
+    if g.timeout:
+        return "generate() does not terminate"
+    if not g.ok:
+        return None
+    err = e2e.parses(g.text)
+    if err:
+        return f"output does not parse: {err}"
+    probs = scope_problems(g.text)
+    if probs:
+        return probs[0]
+    if kind == "msgspec.Struct":
+        return None
+    mod, err = e2e.load_module(g.text, kind)
+    try:
+        if err and any(t in err for t in ("NameError", "ImportError", "is not defined")):
+            return f"module does not execute: {err}"
+        return None
+    finally:
+        e2e.unload(mod)
+
+
 def falsify(ctx):
     rng = ctx.rng("fals")
     cases = []
@@ -386,6 +470,26 @@ def falsify(ctx):
         opts = [o for o in OPTS if rng.random() < 0.2]
         cases.append((gen_schema(rng), kind, opts))
     seen = 0
+    for sdl in SDLS:
+        for kind in e2e.KINDS:
+            ctx.count("eval_e2e")
+            ctx.nontrivial(("sdl", sdl, kind))
+            why = check_sdl(sdl, kind)
+            if why:
+                seen += 1
+                if seen <= 6:
+                    ctx.violation(f"sdl:{kind}:{sdl}", f"{kind} GraphQL {sdl!r}: {why}", {"sdl": sdl, "kind": kind, "why": why})
+    for fname, sch, inst in self_named_family():
+        for kind in ("pydantic_v2.BaseModel", "pydantic.BaseModel", "dataclasses.dataclass"):
+            for opts in ([], ["collapse_root_models"], ["collapse_root_models", "reuse_model"]):
+                ctx.count("eval_e2e")
+                ctx.nontrivial(("self-named", fname, kind, tuple(opts), json.dumps(sch["definitions"]["Holder"].get("required"))))
+                why = check_self_named(sch, kind, opts, inst)
+                if why:
+                    seen += 1
+                    if seen <= 6:
+                        ctx.violation(f"self-named:{fname}:{kind}:{opts}:{sch['definitions']['Holder'].get('required')}", f"{kind} {opts} member Toy ({fname}): {why}",
+                                      {"schema": sch, "kind": kind, "opts": opts, "instance": inst, "why": why})
     for sch, kind, opts in cases:
         if in_known_class(sch, kind, opts):
             ctx.count("outside_guard")
@@ -491,14 +595,22 @@ def in_known_class(sch, kind, opts):
 
 def replay_finding(ctx, f):
     r = f["replay"]
+    if "sdl" in r:
+        return check_sdl(r["sdl"], r["kind"]) is not None
+    if "instance" in r:
+        return check_self_named(r["schema"], r["kind"], r["opts"], r["instance"]) is not None
     return check_schema(r["schema"], r["kind"], r["opts"]) is not None
 
 
 def replay(ctx, payload):
     r = payload.get("replay", payload)
+    if "sdl" in r:
+        why = check_sdl(r["sdl"], r["kind"])
+        print("replay:", why or "no violation")
+        return 1 if why else 0
     if "schema" not in r:
         print(json.dumps(payload, indent=1)[:3000])
         return 0
-    why = check_schema(r["schema"], r["kind"], r["opts"])
+    why = check_self_named(r["schema"], r["kind"], r["opts"], r["instance"]) if "instance" in r else check_schema(r["schema"], r["kind"], r["opts"])
     print("replay:", why or "no violation")
     return 1 if why else 0
